@@ -3,7 +3,7 @@
    total order (C06_element_orders gives the two instances the checks run at). *)
 From Coq Require Import Sorting.Permutation Sorting.Sorted.
 From EsVerif.Common Require Import Base.
-From EsVerif.C06 Require Import Model Spec Lemmas MatchProofs DedupProofs Proofs.
+From EsVerif.C06 Require Import Model Spec Lemmas MatchProofs DedupProofs Proofs Forms FormsProofs Skel Gen Tie.
 Local Open Scope nat_scope.
 
 (* integers (and order-embedded floats) and code-point strings are total orders *)
@@ -136,3 +136,169 @@ Proof.
     split; [|reflexivity].
     apply (sorting_perm_check_sound _ zltb zeqb z_total_order). reflexivity.
 Qed.
+
+(* ======================================================================================
+   Round 2.  (a) more of the code in the model (Forms.v): empty arrays, scalar second argument,
+   mixed string kinds, the grouping reading of the output, complete return values of unique /
+   rem_dup.  (b) the tie to the SOURCE: Gen.v is regenerated from esutil/numpy_util.py on every
+   run (harness/props/c06_translate.py); the statements below that mention gen_* are about what
+   was read from the tree under check and stop building when the source changes one of the
+   parts listed in Skel.v.
+   ====================================================================================== *)
+
+(* byte strings and unicode strings in one pair of arrays (tagged strings) form a total order too *)
+Theorem C06_element_orders_tagged : total_order tag_ltb tag_eqb.
+Proof. exact tag_total_order. Qed.
+
+(* an empty second array is rejected (ValueError); an empty first array fails earlier, at
+   `el = arr1[0]` (IndexError) - the code that exists; empty arrays are outside the quantifier *)
+Theorem C06_match_empty : forall A (ltb eqb : A -> A -> bool) (str p : bool) (a1 a2 : list A),
+  (a1 <> [] -> match_ ltb eqb str p a1 [] = Err EValue /\ match_multi ltb eqb str p a1 [] = Err EValue)
+  /\ match_ ltb eqb str p [] a2 = Err EIndex /\ match_multi ltb eqb str p [] a2 = Err EIndex.
+Proof. exact match_empty. Qed.
+
+(* a scalar second argument: exactly its position in the first array, or nothing *)
+Theorem C06_match_scalar_second : forall A (ltb eqb : A -> A -> bool), total_order ltb eqb ->
+  forall (str p : bool) (a1 : list A) (y : A), NoDup a1 -> a1 <> [] -> (p = true -> sorted ltb a1) ->
+  (forall i, nth_error a1 i = Some y -> match_ ltb eqb str p a1 [y] = Ok ([i], [0]))
+  /\ (~ In y a1 -> match_ ltb eqb str p a1 [y] = Ok ([], [])).
+Proof. exact match_scalar_second. Qed.
+
+(* nothing in common: nothing reported; in particular bytes against unicode, either way round *)
+Theorem C06_match_nothing_in_common : forall A (ltb eqb : A -> A -> bool), total_order ltb eqb ->
+  forall (str p : bool) (a1 a2 : list A), NoDup a1 -> a1 <> [] -> a2 <> [] -> (p = true -> sorted ltb a1) ->
+  (forall x, In x a1 -> In x a2 -> False) -> match_ ltb eqb str p a1 a2 = Ok ([], []).
+Proof. exact match_nothing_in_common. Qed.
+
+Theorem C06_match_bytes_vs_unicode : forall str p (a1 a2 : list tstr) u,
+  NoDup a1 -> a1 <> [] -> a2 <> [] -> (p = true -> sorted tag_ltb a1) ->
+  (forall x, In x a1 -> fst x = u) -> (forall y, In y a2 -> fst y = negb u) ->
+  match_ tag_ltb tag_eqb str p a1 a2 = Ok ([], []).
+Proof. exact match_bytes_vs_unicode. Qed.
+
+(* the output read as groups (match_multi): the positions of the second array paired with index i
+   of the first are exactly the positions holding a1[i], ascending; the boolean form is what the
+   correspondence run evaluates on the implementation's output *)
+Theorem C06_match_groups : forall A (ltb eqb : A -> A -> bool), total_order ltb eqb ->
+  forall (a1 a2 : list A) o i x, NoDup a1 -> match_ok a1 a2 o -> nth_error a1 i = Some x ->
+  group_of i (fst o) (snd o) = positions_of eqb x a2.
+Proof. exact match_ok_group. Qed.
+
+Theorem C06_match_groups_check : forall A (ltb eqb : A -> A -> bool), total_order ltb eqb ->
+  forall (a1 a2 : list A) o, NoDup a1 -> match_ok a1 a2 o -> groups_check eqb a1 a2 o = true.
+Proof. exact match_ok_groups. Qed.
+
+(* unique with its complete return value: indices (values=False), the distinct values = arr[keep]
+   (values=True); a 0-d array raises IndexError *)
+Theorem C06_unique_call : forall A (ltb eqb : A -> A -> bool), total_order ltb eqb ->
+  forall s (a : list A), a <> [] -> sorting_perm ltb s a ->
+  (exists keep, unique_call eqb false s a false = Ok (UIdx keep) /\ one_per_value a keep)
+  /\ (exists keep vals, unique_call eqb false s a true = Ok (UVals vals)
+                        /\ one_per_value a keep /\ gather a keep = Some vals /\ values_ok a vals)
+  /\ (forall v, unique_call eqb true s a v = Err EIndex).
+Proof. exact unique_call_correct. Qed.
+
+(* rem_dup with its complete return value: a python scalar exactly when n = 1 (also a 0-d array),
+   values=True adds arr[keep] *)
+Theorem C06_rem_dup_call : forall A (ltb eqb : A -> A -> bool), total_order ltb eqb ->
+  forall s (a : list A) flag v, a <> [] -> length flag = length a -> sorting_perm ltb s a ->
+  exists sc keep vals, rem_dup_call eqb s a flag v = Ok (sc, keep, vals)
+    /\ rem_dup_ok a flag keep
+    /\ (sc = true <-> length a = 1)
+    /\ (v = true -> exists vl, vals = Some vl /\ gather a keep = Some vl /\ values_ok a vl)
+    /\ (v = false -> vals = None).
+Proof. exact rem_dup_call_correct. Qed.
+
+(* ---- the skeletons (Skel.v) at the modelled parameters ARE the model, for every input *)
+Theorem C06_skeleton_match : forall A (ltb eqb : A -> A -> bool) k p st (a1 a2 : list A),
+  match_g ltb eqb ref_match k p st a1 a2 = match_with ltb eqb (is_string_of k) p st a1 a2.
+Proof. exact skel_match. Qed.
+
+Theorem C06_skeleton_match_multi : forall A (ltb eqb : A -> A -> bool) k p (a1 a2 : list A),
+  match_multi_g ltb eqb ref_match_multi ref_match k p (argsort ltb a1) a1 a2
+  = match_multi ltb eqb (is_string_of k) p a1 a2.
+Proof. exact skel_match_multi. Qed.
+
+Theorem C06_skeleton_unique : forall A (ltb eqb : A -> A -> bool) z s (a : list A) v,
+  unique_call_g ltb eqb ref_unique z s a v = unique_call eqb z s a v.
+Proof. exact skel_unique_call. Qed.
+
+Theorem C06_skeleton_rem_dup : forall A (ltb eqb : A -> A -> bool) s (a : list A) flag v,
+  rem_dup_call_g ltb eqb ref_rem_dup s a flag v = rem_dup_call eqb s a flag v.
+Proof. exact skel_rem_dup_call. Qed.
+
+(* the code as found (29e445c) is the same skeleton at the parameters read from ITS source
+   (val = arr[0], keep[0] zero-initialised), and there the property is refuted *)
+Theorem C06_skeleton_unique_as_found : forall A (ltb eqb : A -> A -> bool) s (a : list A),
+  unique_g ltb eqb asfound_unique s a = unique_orig_with eqb s a.
+Proof. exact skel_unique_as_found. Qed.
+
+Theorem C06_skeleton_unique_as_found_refuted :
+  exists s a keep, a <> [] /\ sorting_perm zltb s a
+                   /\ unique_g zltb zeqb asfound_unique s a = Ok keep /\ ~ one_per_value a keep.
+Proof. exact skel_unique_as_found_refuted. Qed.
+
+(* ---- the tie: what c06_translate.py read from the tree under check *)
+Theorem C06_tie_parameters :
+  gen_match = ref_match /\ gen_match_multi = ref_match_multi /\ gen_unique = ref_unique /\ gen_rem_dup = ref_rem_dup.
+Proof. exact tie_params. Qed.
+
+Theorem C06_tie_match : forall A (ltb eqb : A -> A -> bool) k p st (a1 a2 : list A),
+  match_g ltb eqb gen_match k p st a1 a2 = match_with ltb eqb (is_string_of k) p st a1 a2.
+Proof. exact @tie_match. Qed.
+
+Theorem C06_tie_match_multi : forall A (ltb eqb : A -> A -> bool) k p (a1 a2 : list A),
+  match_multi_g ltb eqb gen_match_multi gen_match k p (argsort ltb a1) a1 a2
+  = match_multi ltb eqb (is_string_of k) p a1 a2.
+Proof. exact @tie_match_multi. Qed.
+
+Theorem C06_tie_unique : forall A (ltb eqb : A -> A -> bool) z s (a : list A) v,
+  unique_call_g ltb eqb gen_unique z s a v = unique_call eqb z s a v.
+Proof. exact @tie_unique. Qed.
+
+Theorem C06_tie_rem_dup : forall A (ltb eqb : A -> A -> bool) s (a : list A) flag v,
+  rem_dup_call_g ltb eqb gen_rem_dup s a flag v = rem_dup_call eqb s a flag v.
+Proof. exact @tie_rem_dup. Qed.
+
+Theorem C06_tie_defaults :
+  mp_presorted_default gen_match = false /\ mm_presorted_default gen_match_multi = false
+  /\ up_values_default gen_unique = false /\ rp_values_default gen_rem_dup = false.
+Proof. exact tie_defaults. Qed.
+
+(* ---- the property stated about the regenerated definitions, keywords at their source defaults *)
+Theorem C06_source_match : forall A (ltb eqb : A -> A -> bool), total_order ltb eqb ->
+  forall k (a1 a2 : list A), NoDup a1 -> a1 <> [] -> a2 <> [] ->
+  exists o, match_g ltb eqb gen_match k (mp_presorted_default gen_match) (argsort ltb a1) a1 a2 = Ok o
+            /\ match_ok a1 a2 o.
+Proof. exact @source_match. Qed.
+
+Theorem C06_source_match_multi : forall A (ltb eqb : A -> A -> bool), total_order ltb eqb ->
+  forall k p (a1 a2 : list A), NoDup a1 -> a1 <> [] -> a2 <> [] ->
+  exists o, match_multi_g ltb eqb gen_match_multi gen_match k p (argsort ltb a1) a1 a2 = Ok o
+            /\ match_ok a1 a2 o /\ groups_check eqb a1 a2 o = true.
+Proof. exact @source_match_multi. Qed.
+
+Theorem C06_source_unique : forall A (ltb eqb : A -> A -> bool), total_order ltb eqb ->
+  forall s (a : list A), a <> [] -> sorting_perm ltb s a ->
+  (exists keep, unique_call_g ltb eqb gen_unique false s a (up_values_default gen_unique) = Ok (UIdx keep)
+                /\ one_per_value a keep)
+  /\ (exists vals, unique_call_g ltb eqb gen_unique false s a true = Ok (UVals vals) /\ values_ok a vals).
+Proof. exact @source_unique. Qed.
+
+Theorem C06_source_rem_dup : forall A (ltb eqb : A -> A -> bool), total_order ltb eqb ->
+  forall s (a : list A) flag, a <> [] -> length flag = length a -> sorting_perm ltb s a ->
+  exists sc keep, rem_dup_call_g ltb eqb gen_rem_dup s a flag (rp_values_default gen_rem_dup) = Ok (sc, keep, None)
+                  /\ rem_dup_ok a flag keep.
+Proof. exact @source_rem_dup. Qed.
+
+(* Non-vacuity of the parameterisation: each interpreted parameter changes the function
+   (searchsorted side, clamp operator, uniqueness-guard operator, rem_dup's tie rule), and
+   concrete instances of the new statements compute. *)
+Example C06_nonvacuous_round2 :
+  match_ tag_ltb tag_eqb true false [(true, [97]); (true, [98])]%Z [(false, [97]); (false, [99])]%Z = Ok ([], [])
+  /\ match_ zltb zeqb false false [3; 1; 2]%Z [] = Err EValue
+  /\ unique_call zeqb false [1; 0; 2] [5; 1; 5]%Z true = Ok (UVals [1; 5]%Z)
+  /\ rem_dup_call zeqb [0] [5]%Z [1]%Z true = Ok (true, [0], Some [5]%Z)
+  /\ group_of 2 [2; 2; 0] [0; 1; 4] = positions_of zeqb 2%Z [2; 2; 7; -1; 3]%Z
+  /\ match_g zltb zeqb gen_match ClsNum false (argsort zltb [3; 1; 2]%Z) [3; 1; 2]%Z [2; 2; 7; -1; 3]%Z = Ok ([2; 2; 0], [0; 1; 4]).
+Proof. repeat split; reflexivity. Qed.
